@@ -53,8 +53,9 @@ def source_hash() -> str:
     return h.hexdigest()
 
 
-def build() -> tuple[bool, str]:
-    r = subprocess.run(["lake", "build", "Toq", "toqdriver"], cwd=LEAN_DIR, capture_output=True, text=True)
+def build(pid: str | None = None) -> tuple[bool, str]:
+    target = f"Toq.Properties.{pid}" if pid else "Toq"
+    r = subprocess.run(["lake", "build", target, "toqdriver"], cwd=LEAN_DIR, capture_output=True, text=True)
     return r.returncode == 0, (r.stdout + r.stderr)[-4000:]
 
 
@@ -102,9 +103,9 @@ def audit(pid: str, use_cache: bool = True) -> dict:
         "theorems": names,
         "axioms_used": [],
         "problems": [],
-        "checker_cmd": f"cd lean && lake build Toq toqdriver && lake env lean .lake/audit/{pid}.lean  (#print axioms for every theorem of Toq/Properties/{pid}.lean)",
+        "checker_cmd": f"cd lean && lake build Toq.Properties.{pid} toqdriver && lake env lean .lake/audit/{pid}.lean  (#print axioms for every theorem of Toq/Properties/{pid}.lean)",
     }
-    ok, log = build()
+    ok, log = build(pid if os.path.exists(os.path.join(LEAN_DIR, 'Toq', 'Properties', f'{pid}.lean')) else None)
     if not ok:
         res["problems"].append("lake build failed: " + log[-1500:])
         return res
